@@ -211,6 +211,45 @@ def pong_then_foreign(ctx, rng, bufsize, extra):
         sc.close()
 
 
+def queued_payload_bound(ctx, rng, bufsize):
+    """check_fullness after every callback and no frame ever delivered (the peer is slow): the stream payload
+    queued by this end must stay within the budget plus one frame cut per callback, and the rttest PING must have
+    been requested as soon as the budget was exceeded."""
+    o = tg.Opts(nflows=2, steps=0, latency=True, bufsize=bufsize)
+    sc = tg.Scenario(rng, o)
+    try:
+        t = sc.t
+        ss = t.ssnet
+        full = Io('ok', 'd65536', 's65536', False)
+        for _ in range(2):
+            sc.do(('accept',))
+        for _ in range(3):
+            sc.do(('deliver', 's', 'ok'))
+        if sc.stop or len(t.flows) < 2:
+            return sc.s.ins, sc.s.outs
+        n0 = len(t.cmux.outbuf)
+        for i in range(2):
+            sc.env_write(i, 'app', tg.payload(rng, 12 * 2048, 5 + i))
+        for k in range(16):
+            sc.do(('cb', 'c', k % 2, full))
+            sc.do(('full', 'c'))
+            new = frames_of(t.cmux, n0)
+            queued = sum(n for (_c, cmd, n, _d) in new if cmd == ss.CMD_TCP_DATA)
+            pings = [f for f in new if f[1] == ss.CMD_PING and f[3] == b'rttest']
+            if queued > bufsize + 2048 * 2:
+                tg.report(ctx, sc, 'C09:bound:queued-stream-payload-exceeds-budget', 0, 'callback %d' % k,
+                          '<= %d bytes queued while no PONG arrives' % (bufsize + 4096), queued)
+                break
+            if queued > bufsize and not pings:
+                tg.report(ctx, sc, 'C09:ping:budget-exceeded-but-no-rttest-requested', 0, 'callback %d' % k,
+                          'an rttest PING once more than %d bytes are queued' % bufsize, 'none (%d bytes queued)' % queued)
+                break
+        tg.oracle_alive(ctx, sc, 'C09', 'run')
+        return sc.s.ins, sc.s.outs
+    finally:
+        sc.close()
+
+
 def server_start(ctx):
     """The server must start for every buffer size the option parser can hand it."""
     for size in (0, 1, 32768):
@@ -231,6 +270,14 @@ def run(ctx):
     rng = ctx.rng
     server_start(ctx)
     all_in, all_out = [], []
+    for tag, fn in ([('bound-%d' % b, (lambda b=b: queued_payload_bound(ctx, rng, b))) for b in (2048, 5000)] +
+                    [('burst', lambda: tg.burst_in_one_read(ctx, rng, 'C09', 120, bufsize=300, latency=True))]):
+        ins, outs = fn()
+        all_in.append(ins)
+        all_out.append(outs)
+        ctx.count()
+        ctx.mark(('directed', tag), True)
+        ctx.hist('directed:' + tag.split('-')[0])
     for bufsize, extra in ((512, 1200), (100, 101), (2048, 4000)):
         ins, outs = pong_then_foreign(ctx, rng, bufsize, extra)
         all_in.append(ins)
